@@ -615,6 +615,7 @@ func runCase(c *vlib.Ctx, st *stats, tmpl consensus.State, K *chain.Keyring, see
 		}
 		h := w.host()
 		tr := w.truth()
+		h.tr = tr
 		full := map[string]int{}
 		for i, f := range ph.Full {
 			full[f.D] = i
